@@ -149,6 +149,12 @@ class Extractor:
                 loc = it.resolve(S, pl)
                 fld = ".".join(e[2] for e in loc[1] if e[0] in ("f",))
                 rets.append(("store", fld, render_value(self.prog, S.read(loc), names=self.names())))
+            elif self.track_stores and st["place"]["p"] and st["place"]["p"][0] == "*":
+                pl = Place(st["place"])
+                loc = it.resolve(S, pl)
+                if loc[0][0] == "P" and not is_param_load(loc[0][1]):
+                    from .interp import stable_loc
+                    rets.append(("store", "via:" + stable_loc(loc), render_value(self.prog, S.read(loc), names=self.names())))
         it.cur = (bi, len(blk["stmts"]))
         it.counter = 0
         mark = len(self.order)
@@ -404,7 +410,15 @@ def render_value(prog, v, depth=0, names=None):
             if not fields:
                 return nm
             return "%s(%s)" % (nm, ", ".join(render_value(prog, f, depth + 1, names) for f in fields))
+        if kind == "array":
+            return "[%s]" % ", ".join(render_value(prog, f, depth + 1, names) for f in fields)
+        if kind == "tuple":
+            return "(%s)" % ", ".join(render_value(prog, f, depth + 1, names) for f in fields)
         return "%s(%s)" % (kind, ", ".join(render_value(prog, f, depth + 1, names) for f in fields))
+    if h == "model" and len(v) > 2 and v[1] == "vec!":
+        return "vec!" + render_value(prog, v[2], depth + 1, names)
+    if h == "model" and len(v) > 2 and v[1] in ("to_string", "into_bytes", "collect", "to_lowercase"):
+        return "%s(%s)" % (v[1], render_value(prog, v[2], depth + 1, names))
     if h == "upd":
         return render_value(prog, v[1], depth, names)
     if h == "bin":
